@@ -346,7 +346,11 @@ class World:
         elif kind == "drop":
             x = ev[1]
             try:
-                self.h.drop_sel(a=x)
+                # (labels as keyword or, alternately, as a positional dict)
+                if len(m.disk or {}) % 2:
+                    self.h.drop_sel({"a": x})
+                else:
+                    self.h.drop_sel(a=x)
             except Exception as e:
                 vio.append(("raised:" + type(e).__name__,
                             "drop_sel(a=%r) raised %r" % (x, e)))
